@@ -1,6 +1,7 @@
 (* C12 - the VM is total, bounded and memory-safe on every script.
    Statements only; every proof is [exact lemma]. *)
-From NG Require Import VM.Model VM.Total VM.LimitsData VM.Limits VM.Reach VM.Static VM.StaticProofs VM.RefsFlat VM.RefsFlatOps VM.RefsFlatStep.
+From NG Require Import VM.Model VM.Total VM.LimitsData VM.Limits VM.Reach VM.Static VM.StaticProofs VM.RefsFlat VM.RefsFlatOps VM.RefsFlatStep
+  VM.RefsInv VM.RefsMoves VM.RefsData VM.RefsOps VM.RefsComp VM.RefsShape VM.RefsStep.
 Open Scope Z_scope.
 
 (* the premise on the price table generated from pkg/core/fee: every opcode costs at least one unit, except the
@@ -76,19 +77,104 @@ Theorem C12_runp_is_run : forall p s, runp p s = run (Pos.to_nat p) s.
 Proof. exact runp_run. Qed.
 Print Assumptions C12_runp_is_run.
 
-(* the item counter never under-counts what a walk of stacks and slots finds: full statement (not yet proved for
-   the compound-type instructions; tied to the implementation by the c12 correspondence at every step) *)
+(* ------------------------------------------------------------------------------------------------------------
+   The item counter never under-counts what a walk of stacks and slots finds.
+
+   Full statement: after every instruction of every execution of a script, and at HALT, reach_count <= refs.
+   [prog] is a list of Z standing for the script bytes; the premise says they are bytes in so far as it matters
+   (not negative) - without it the statement is false for the trivial reason shown in
+   C12_refs_premise_needed_example (INITSSLOT with a "count byte" of -5).
+   Scope: the bare VM ([step]: one script context, SYSCALL / CALLT fault), with REMOVE on a Map in the order of the
+   repair F50 (fixes/F50-remove-map-entry-before-uncounting.diff): vm.go as found under-counts there, see notes/C12.md.
+   ------------------------------------------------------------------------------------------------------------ *)
 Definition C12_refs_never_undercount_statement : Prop :=
   forall n prog sid base limit s,
+    Forall (fun b => 0 <= b) prog ->
     (run n (init_state prog sid base limit) = Running s \/ run n (init_state prog sid base limit) = Halted s) ->
     reach_count s <= s_refs s.
 
-(* PARTIAL towards C12_refs_never_undercount_statement.  Proved: along an execution of one script, as long as none of the
+Theorem C12_refs_never_undercount : C12_refs_never_undercount_statement.
+Proof. exact refs_never_undercount. Qed.
+Print Assumptions C12_refs_never_undercount.
+
+Example C12_refs_premise_needed_example :
+  match run 1 (init_state [86; -5] 1%N 1 1000) with Running s => reach_count s = 0 /\ s_refs s = -5 | _ => False end.
+Proof. vm_compute. split; reflexivity. Qed.
+
+(* non-vacuity on a script that builds a cycle through a Map and removes the entry that closes it
+   (NEWMAP DUP PUSH0 NEWARRAY0 DUP PUSH3 PICK APPEND SETITEM PUSH0 REMOVE PUSH1: the witness of F50) *)
+Example C12_refs_cycle_example :
+  match run 11 (init_state [200; 74; 16; 194; 74; 19; 77; 207; 208; 16; 210; 17] 1%N 1 100000) with
+  | Running s => reach_count s = 0 /\ s_refs s = 0 /\ final_stack s = [] | _ => False end.
+Proof. vm_compute. repeat split; reflexivity. Qed.
+
+(* The proof goes through the in-degree invariant [sI] (VM/RefsStep.v, VM/RefsInv.v):
+     for every compound l:   count(l) + 0 = (references to l from stacks, slots and leaked counts)
+                                            + (references to l from compounds whose own count is > 0)
+     refs                  = (number of stack and slot entries and leaked counts)
+                             + (number of child references of compounds whose own count is > 0)
+   It holds initially, is preserved by every instruction, and implies reach_count <= refs.  The steps are banked as
+   separate theorems, instruction family by instruction family. *)
+
+(* the invariant implies the inequality *)
+Theorem C12_refs_invariant_sound : forall s, sI s -> reach_count s <= s_refs s.
+Proof. exact sI_sound. Qed.
+Print Assumptions C12_refs_invariant_sound.
+
+Theorem C12_refs_invariant_init : forall prog sid base limit,
+  Forall (fun b => 0 <= b) prog -> sI (init_state prog sid base limit).
+Proof. exact init_sI. Qed.
+Print Assumptions C12_refs_invariant_init.
+
+(* family 1: every data instruction that does not touch a compound (constants, arithmetic, bitwise, comparison, splice,
+   type tests, asserts, THROW, DROP..REVERSEN through compounds held on the stack, INITSLOT / LD* / ST* slots): the
+   invariant is preserved with no leak.  [dI0 E d]: the invariant on the data view d of the executing context, E = the
+   counted references held elsewhere *)
+Theorem C12_refs_sound_basic : forall e op p d E,
+  is_compound_op op = false -> Forall (fun b => 0 <= b) p -> dI0 E d -> dres_I E (exec_data e op p d).
+Proof. exact exec_data_I_basic. Qed.
+Print Assumptions C12_refs_sound_basic.
+
+(* families 2-6: the compound instructions
+     creation   NEWARRAY0 NEWSTRUCT0 NEWMAP NEWARRAY NEWARRAY_T NEWSTRUCT PACK PACKSTRUCT PACKMAP
+     growth     APPEND (with Struct clone), REVERSEITEMS, CLEARITEMS, POPITEM
+     readers    SIZE HASKEY PICKITEM KEYS CONVERT
+     spreading  UNPACK VALUES (with Struct clones)
+     removal    REMOVE (Array/Struct: vm.go's order; Map: the order of the repair F50), SETITEM
+   and with them every data instruction: the invariant is preserved, possibly with more leaked counts Lk (SETITEM
+   leaks when replacing an element frees the container it is stored into; an over-count, never an under-count) *)
+Theorem C12_refs_sound_compound : forall e op p d E,
+  Forall (fun b => 0 <= b) p -> dI0 E d -> exists Lk, dres_I (Lk ++ E) (exec_data e op p d).
+Proof. exact exec_data_IL. Qed.
+Print Assumptions C12_refs_sound_compound.
+
+(* family 7: control - jumps, CALL / CALL_L / CALLA, RET and unloading (Slot.ClearRefs), TRY / ENDTRY / ENDFINALLY, THROW
+   and exception unwinding through contexts; together with the above: every instruction *)
+Theorem C12_refs_sound_control : forall cip op p s,
+  sI s -> Forall (fun b => 0 <= b) p ->
+  match exec_op no_sys cip op p s with XNext s' => sI s' | XHalt s' => sI s' | XFault => True end.
+Proof. exact exec_op_sI. Qed.
+Print Assumptions C12_refs_sound_control.
+
+Theorem C12_refs_invariant_step : forall s,
+  sI s -> match step s with Running s' => sI s' | Halted s' => sI s' | Faulted _ => True end.
+Proof. exact step_sI. Qed.
+Print Assumptions C12_refs_invariant_step.
+
+(* the heap only grows and a location never changes between buffer and compound (keeps a pending exception well-formed
+   while a finally block runs) *)
+Theorem C12_heap_shape_monotone : forall e op p d,
+  match exec_data e op p d with
+  | DOk d' => same_shape (d_heap d) (d_heap d') | DThrow _ d' => same_shape (d_heap d) (d_heap d') | DFault => True end.
+Proof. exact exec_data_shape. Qed.
+Print Assumptions C12_heap_shape_monotone.
+
+(* Exactness (the other direction) - PARTIAL.  Proved: along an execution of one script, as long as none of the
    nine compound-creating instructions (NEWARRAY0 NEWARRAY NEWARRAY_T NEWSTRUCT0 NEWSTRUCT NEWMAP PACK PACKSTRUCT PACKMAP)
    has been executed - so no Array/Struct/Map exists - the item counter is exact (= the walk) after every instruction and
    at HALT, through every other instruction incl. slots, calls, exceptions and unloading.
-   Missing: the compound-type instructions (the in-degree invariant of the per-compound counts); for those the
-   inequality is checked on the real VM and on the model at every step of every generated execution (c12). *)
+   Not proved: exactness (refs = walk) once compounds exist and no cycle was ever built; there only <= is proved
+   (C12_refs_never_undercount); equality is checked on the real VM at every step of every generated execution (c12). *)
 Theorem C12_refs_exact_flat_partial : forall n s,
   flat_inv s -> run_no_creator n s ->
   match run n s with
